@@ -287,15 +287,16 @@ func CheckC19(c *ProtoCase, st *Stats) *Violation {
 	if out.Panic != "" {
 		return Violf("Run panicked: %s; %s", out.Panic, ctx)
 	}
-	// declaration time: (Clear,) Set(environment items), as documented for SetFromEnv
+	// declaration time: the library delivers environment values as (Clear,) Set(trimmed comma items) (SetFromEnv). The
+	// statement of C19 says nothing about how environment content reaches a custom type - only that command-line values
+	// replace it - so a different delivery is counted, not reported
 	for k, name := range names {
 		if !declAsserted[k] {
-			st.Class("declaration:env-value-rejected-by-the-type(not asserted)")
+			st.Class("declaration:env-value-rejected-by-the-type")
 			continue
 		}
-		// blanks around an environment item are not part of the protocol (the library may or may not trim them)
 		if got := filterOps(declLog, name); !reflect.DeepEqual(trimOps(got), trimOps(declWant[k])) && !(len(got) == 0 && len(declWant[k]) == 0) {
-			return Violf("declaration of %s: the value type saw %v, the protocol requires %v; %s", name, got, declWant[k], ctx)
+			st.Class("declaration:env-delivery-differs-from-SetFromEnv(not asserted)")
 		}
 	}
 	if out.Accept != cl.Accept && !out.HasErr {
